@@ -172,10 +172,33 @@ class Memo:
                 return
 
 
-def _guard_args(ctx, stage, opi, args, fn):
-    """Calls fn(); the caller's arrays must be unchanged afterwards."""
+_FAILED = object()
+
+
+def _guard_args(ctx, stage, opi, args, fn, fresh=None):
+    """Calls fn(); the caller's arrays must be unchanged afterwards.  If the call raises on the
+    long-lived object, the same batch is given to a FRESH object: if that one accepts it, the
+    failure depends on the call history (a violation); if it raises too, the stage simply does
+    not accept this input, which is not this property's business."""
     before = [histsim.abytes(a) for a in args]
-    out = fn()
+    try:
+        out = fn()
+    except Violation:
+        raise
+    except Exception as e:  # noqa: BLE001
+        if fresh is None:
+            raise
+        try:
+            fresh()
+        except Exception:  # noqa: BLE001
+            ctx.probes["stage_rejects_input"] += 1
+            return _FAILED
+        ctx.violate(
+            "c11.history_dependent_failure",
+            f"op {opi} {stage}: raised {type(e).__name__}: {str(e)[:160]} on the long-lived object, but a fresh object accepts the same batch",
+            sig=stage,
+        )
+        return _FAILED
     for k, (a, b) in enumerate(zip(args, before)):
         if histsim.abytes(a) != b:
             ctx.violate("c11.argument_modified", f"op {opi} {stage}: argument {k} (array of {np.asarray(a).size} elements) was modified in place by the call", sig=f"{stage}:arg{k}")
@@ -286,7 +309,8 @@ def scn_history(ctx):
             if st == "geom":
                 g = obj("geom")
                 u = np.ascontiguousarray(P["u4"][:, idx]) if ch.draw(4, "u_layout") else np.asfortranarray(P["u4"][:, idx])
-                _guard_args(ctx, "RegionGeom.throw", opi, [u], lambda: g.throw(u))
+                if _guard_args(ctx, "RegionGeom.throw", opi, [u], lambda: g.throw(u), lambda: RegionGeom(cfg).throw(np.array(u))) is _FAILED:
+                    continue
                 memo.observe(ctx, "RegionGeom.throw", "explicit-u", idx, _geom_outputs(g, n), opi, n)
             elif st == "geom_call_seeded":
                 g = obj("geom")
@@ -312,7 +336,8 @@ def scn_history(ctx):
             elif st == "too":
                 g = obj("too")
                 t = L(P["tfrac"][idx])
-                _guard_args(ctx, "RegionGeomToO.throw", opi, [t], lambda: g.throw(t))
+                if _guard_args(ctx, "RegionGeomToO.throw", opi, [t], lambda: g.throw(t), lambda: RegionGeomToO(tcfg).throw(np.array(t))) is _FAILED:
+                    continue
                 memo.observe(ctx, "RegionGeomToO.throw", "explicit-times", idx, _too_outputs(g, n), opi, n)
             elif st == "spec":
                 sp = obj("spec")
@@ -333,24 +358,32 @@ def scn_history(ctx):
             elif st == "tau_exit_prob":
                 tq = obj("taus")
                 b, e = L(P["beta"][idx], "lb"), L(P["logE"][idx], "le")
-                out = _guard_args(ctx, "Taus.tau_exit_prob", opi, [b, e], lambda: tq.tau_exit_prob(b, e))
+                out = _guard_args(ctx, "Taus.tau_exit_prob", opi, [b, e], lambda: tq.tau_exit_prob(b, e), lambda: Taus(cfg).tau_exit_prob(np.array(b), np.array(e)))
+                if out is _FAILED:
+                    continue
                 memo.observe(ctx, "Taus.tau_exit_prob", "none", idx, [out], opi, n)
             elif st == "tau_energy_u":
                 tq = obj("taus")
                 b, e, u = L(P["beta_in"][idx], "lb"), L(P["logE"][idx], "le"), L(P["u"][idx], "lu")
-                out = _guard_args(ctx, "Taus.tau_energy", opi, [b, e, u], lambda: tq.tau_energy(b, e, u))
+                out = _guard_args(ctx, "Taus.tau_energy", opi, [b, e, u], lambda: tq.tau_energy(b, e, u), lambda: Taus(cfg).tau_energy(np.array(b), np.array(e), np.array(u)))
+                if out is _FAILED:
+                    continue
                 memo.observe(ctx, "Taus.tau_energy", "explicit-u", idx, [out], opi, n)
             elif st == "tau_energy_const":
                 tq = obj("taus")
                 b, e = L(P["beta"][idx], "lb"), L(P["logE"][idx], "le")
                 with histsim.constant_stream():
-                    out = _guard_args(ctx, "Taus.tau_energy", opi, [b, e], lambda: tq.tau_energy(b, e))
+                    out = _guard_args(ctx, "Taus.tau_energy", opi, [b, e], lambda: tq.tau_energy(b, e), lambda: Taus(cfg).tau_energy(np.array(b), np.array(e)))
+                if out is _FAILED:
+                    continue
                 memo.observe(ctx, "Taus.tau_energy", "const", idx, [out], opi, n)
             elif st == "taus_call":
                 tq = obj("taus")
                 b, e = L(P["beta"][idx], "lb"), L(P["logE"][idx], "le")
                 with histsim.constant_stream():
-                    out = _guard_args(ctx, "Taus.__call__", opi, [b, e], lambda: tq(b, e))
+                    out = _guard_args(ctx, "Taus.__call__", opi, [b, e], lambda: tq(b, e), lambda: Taus(cfg)(np.array(b), np.array(e)))
+                if out is _FAILED:
+                    continue
                 memo.observe(ctx, "Taus.__call__", "const", idx, list(out), opi, n)
             elif st == "taus_call_seeded":
                 tq = obj("taus")
@@ -365,7 +398,9 @@ def scn_history(ctx):
             elif st == "altDec":
                 ea = obj("eas")
                 b, tb, tl, u = L(P["beta"][idx], "lb"), L(P["tauBeta"][idx], "ltb"), L(P["tauLorentz"][idx], "ltl"), L(P["u"][idx], "lu")
-                out = _guard_args(ctx, "EAS.altDec", opi, [b, tb, tl, u], lambda: ea.altDec(b, tb, tl, u=u))
+                out = _guard_args(ctx, "EAS.altDec", opi, [b, tb, tl, u], lambda: ea.altDec(b, tb, tl, u=u), lambda: EAS(cfg).altDec(np.array(b), np.array(tb), np.array(tl), u=np.array(u)))
+                if out is _FAILED:
+                    continue
                 memo.observe(ctx, "EAS.altDec", "explicit-u", idx, list(out), opi, n)
             elif st == "altDec_seeded":
                 ea = obj("eas")
@@ -385,7 +420,9 @@ def scn_history(ctx):
                 cloud = obj("cloud")
                 args = [L(P["beta"][idx], "lb"), L(P["altDec"][idx], "la"), L(P["showerE"][idx], "ls"), L(P["lat"][idx], "lla"), L(P["lon"][idx], "llo")]
                 with dask.config.set(scheduler="synchronous"):
-                    out = _guard_args(ctx, "EAS.__call__", opi, args, lambda: ea(*args, cloudf=cloud))
+                    out = _guard_args(ctx, "EAS.__call__", opi, args, lambda: ea(*args, cloudf=cloud), lambda: EAS(cfg)(*[np.array(a) for a in args], cloudf=CloudTopHeight(cfg)))
+                if out is _FAILED:
+                    continue
                 memo.observe(ctx, "EAS.__call__", "none", idx, list(out), opi, n)
                 inr = int(np.count_nonzero((P["altDec"][idx] >= 0) & (P["altDec"][idx] <= 20)))
                 if inr == 0:
@@ -395,7 +432,9 @@ def scn_history(ctx):
                 args = [L(P["beta"][idx], "lb"), L(P["altDec"][idx], "la"), L(P["lenDec"][idx], "ll"), L(P["theta"][idx], "lt"), L(P["pathLen"][idx], "lp"), L(P["showerE"][idx], "ls")]
                 if st == "radio":
                     with histsim.constant_stream():
-                        out = _guard_args(ctx, "EASRadio.__call__", opi, args, lambda: ra(*args))
+                        out = _guard_args(ctx, "EASRadio.__call__", opi, args, lambda: ra(*args), lambda: EASRadio(cfg)(*[np.array(a) for a in args]))
+                    if out is _FAILED:
+                        continue
                     memo.observe(ctx, "EASRadio.__call__", "const", idx, [out], opi, n)
                 else:
                     s = ch.draw(1000, "seed")
